@@ -241,6 +241,8 @@ class Types:
             raw = k.__dict__.get(attr)
             if isinstance(raw, property) and raw.fget is not None:
                 try:
+                    if not is_repo(raw.fget):
+                        raise LookupError("not a repo function")
                     node, mod = extract.function_ast(raw.fget)
                     return self.ann_to_av(node.returns, mod)
                 except Exception:
@@ -250,7 +252,7 @@ class Types:
             # assignments in the methods of the class: self.attr[: T] = value
             for mname, m in k.__dict__.items():
                 f = m.__func__ if isinstance(m, (staticmethod, classmethod)) else m
-                if not inspect.isfunction(f):
+                if not inspect.isfunction(f) or not is_repo(f):
                     continue
                 try:
                     node, mod = extract.function_ast(f)
@@ -333,6 +335,10 @@ TYPES = Types()
 _pure_cache = {}
 
 
+def is_repo(fn):
+    return getattr(fn, "__module__", "") is not None and str(getattr(fn, "__module__", "")).split(".")[0] == "jinja2"
+
+
 def is_pure(fn, _stack=()):
     """no observable effect: no stores to attributes / subscripts, no mutating calls (coinductive over recursion)"""
     fn = inspect.unwrap(fn) if callable(fn) else fn
@@ -342,6 +348,8 @@ def is_pure(fn, _stack=()):
         return _pure_cache[fn]
     if fn in _stack:
         return True
+    if not is_repo(fn):
+        return False
     try:
         node, module = extract.function_ast(fn)
     except Exception:
@@ -1367,6 +1375,8 @@ class Analyzer:
     def repo_call(self, e, fn, recv, args, kwargs, allargs, any_taint):
         """call of a repo function / method: result typed by its return annotation; effects by purity"""
         try:
+            if not is_repo(fn):
+                raise LookupError("not a repo function")
             node, module = extract.function_ast(fn)
             ret = TYPES.ann_to_av(node.returns, module)
         except Exception:
